@@ -490,6 +490,11 @@ pub fn run_job(st: &Value, key: &MasterKey, h: &crate::store::Handle, seed: u64,
 }
 
 pub fn run_program(prog: &Value, out: &mut Out) {
+    _ = run_program_world(prog, out);
+}
+
+/// run a program and hand back the world (store, key, expected contents) it produced
+pub fn run_program_world(prog: &Value, out: &mut Out) -> Option<World> {
     let id = prog["id"].as_str().unwrap_or("p").to_string();
     let seed = prog.get("seed").and_then(Value::as_u64).unwrap_or(1);
     let cfg = prog.get("cfg").cloned().unwrap_or(json!({}));
@@ -518,7 +523,7 @@ pub fn run_program(prog: &Value, out: &mut Out) {
     w.flush_ops(out, false);
     if !init.is_ok() {
         w.emit(out, json!({"e":"end","proc":0,"res":init.class(),"msg":init.msg()}));
-        return;
+        return None;
     }
     let mode = prog.get("probe").and_then(Value::as_str).unwrap_or("step");
     let mut r = Runner {
@@ -559,6 +564,7 @@ pub fn run_program(prog: &Value, out: &mut Out) {
             r.step(st);
         }
     }
+    Some(r.w)
 }
 
 pub fn run(a: &Args) {
